@@ -69,6 +69,23 @@ CLAIMED = {
             'leftmost-longest / isolated / pair rules are decided by the oracle on all interval multisets up to a bound and on '
             'generated overlap chains, and by the correspondence.',
             'Partial proof, see Props/C17.v header.', 'DESIGN.md section 4 C17'),
+    'C09': ('Coq proof (dedup total, no repeated rendering among siblings at any depth, idempotent, truth-table preserving for '
+            'valuations that respect renderings; refutation witness for the rendering-collision finding; relation refused with '
+            'TypeError) + reference-implementation oracle and correspondence on trees with duplicates and on combine_expressions',
+            'Theorems for every well-formed expression tree of the model; operand order and "first position kept" are decided '
+            'by the reference deduplication in the oracle and by the structural correspondence.',
+            'Known finding D10 (different operands with equal renderings) is listed in known_findings.txt.', 'DESIGN.md section 4 C09'),
+    'C10': ('Coq proof (listings are projections of the literals: all occurrences in order, each once under uniqueness, WITH '
+            'pair as license then exception, primary = first, unknown listings = filtered listings) + generated texts whose '
+            'license sequence is known by construction, every switch combination, string and parsed arguments',
+            'Theorems over the model of the listing functions for every expression and table; that the literals are in text '
+            'order is C01 / C02.', '', 'DESIGN.md section 4 C10'),
+    'C11': ('Coq proof (parse(validate=True) raises iff the unknown listing is non-empty and names it; validate() has no error iff '
+            'parse(validate=True) with the same strictness succeeds; normalized = rendering then, absent otherwise; invalid '
+            'symbols = unknown keys) + exhaustive token strings and generated strings on both strictness settings',
+            'Theorems over the models of the three entry points (validate re-parses the text non-strictly, as the code does) '
+            'for every table, string and strictness; error message texts are checked by the oracle.',
+            'Blank strings are outside.', 'DESIGN.md section 4 C11'),
 }
 
 NOT_YET = 'check under construction in this session; see DESIGN.md section 4 for the planned theorem'
